@@ -42,6 +42,7 @@ func (fr *Frame) call(in ssa.Instruction, c *ssa.CallCommon, st *State, g string
 	var key string
 	var callee *ssa.Function
 	var bindings []SV
+	var crec *closureRec // set when the callee is a closure with known bindings (its contract may mention captured variables)
 	if c.IsInvoke() {
 		recv := fr.val(c.Value)
 		fr.safe("nil", g, not(eq(app("itag", recv.t), "0")), pos, "method call on nil interface")
@@ -64,12 +65,14 @@ func (fr *Frame) call(in ssa.Instruction, c *ssa.CallCommon, st *State, g string
 			for _, b := range mc.Bindings {
 				bindings = append(bindings, fr.val(b))
 			}
+			crec = &closureRec{fn: callee, bindings: bindings}
 		}
 	} else {
 		// dynamic call through a function value
 		fv := fr.val(c.Value)
 		if rec, ok := fc.eng.closures[fv.t]; ok {
 			callee, bindings = rec.fn, rec.bindings
+			crec = rec
 			sig = callee.Signature
 			key = funcKey(callee)
 		} else {
@@ -90,8 +93,27 @@ func (fr *Frame) call(in ssa.Instruction, c *ssa.CallCommon, st *State, g string
 	if key == "sort.Slice" && fr.sortSliceModel(c, st, g, pos) {
 		return nil
 	}
+	if key == "math.Abs" && spec == nil && len(args) == 1 {
+		// trusted model: |x| on the reals (finite float64 values are reals; Abs is exact)
+		fc.assumes["trusted model: math.Abs(x) == |x| (exact on finite float64)"] = true
+		return []SV{{t: fc.define(fr.prefix+"fabs", "Real", ite(app(">=", args[0].t, "0.0"), args[0].t, app("-", args[0].t))), typ: sig.Results().At(0).Type()}}
+	}
+	if key == badgerPkgPath+".DB).Update" || key == badgerPkgPath+".DB).View" {
+		if res, ok := fr.badgerRunModel(key, c, st, g, pos); ok {
+			return res
+		}
+	}
 	if spec != nil && !(spec.Inline && callee != nil && len(callee.Blocks) > 0) {
-		return fr.applySpec(spec, key, sig, args, st, g, pos)
+		res := fr.applySpecClosure(spec, key, sig, args, st, g, pos, crec)
+		if _, used := fc.ufs["kvval"]; used && key == "bytes.Equal" && len(args) == 2 && len(res) == 1 {
+			// T-KV: a value id is the identity of the byte string, so bytes.Equal(a, b) <==> kvval(a) == kvval(b)
+			// (ground instance of extensionality + injectivity; only in functions whose specs mention kvval)
+			k, srt := fc.bKey(types.Typ[types.Uint8])
+			h := fc.comp(st, k, srt)
+			id := func(v SV) string { return app("kvval", app("select", h, sarr(v.t)), soff(v.t), slen(v.t)) }
+			fc.assume(g, eq(res[0].t, eq(id(args[0]), id(args[1]))))
+		}
+		return res
 	}
 	if callee != nil && len(callee.Blocks) > 0 && fc.eng.isRepoFunc(callee) {
 		if fc.canInline(fr, callee, spec) {
@@ -224,6 +246,12 @@ func (fr *Frame) inline(callee *ssa.Function, args []SV, bindings []SV, st *Stat
 
 // applySpec applies a callee contract at a call site.
 func (fr *Frame) applySpec(spec *FuncSpec, key string, sig *types.Signature, args []SV, st *State, g string, pos token.Pos) []SV {
+	return fr.applySpecClosure(spec, key, sig, args, st, g, pos, nil)
+}
+
+// applySpecClosure: as applySpec; when the callee is a closure whose bindings are known (rec != nil) the captured
+// variables are visible by name in its contract (captured by reference: the value in the state the clause is evaluated in).
+func (fr *Frame) applySpecClosure(spec *FuncSpec, key string, sig *types.Signature, args []SV, st *State, g string, pos token.Pos, rec *closureRec) []SV {
 	fc := fr.fc
 	if spec.Assume {
 		fc.assumes["assumed contract: "+key+" ("+spec.Src+")"] = true
@@ -235,6 +263,19 @@ func (fr *Frame) applySpec(spec *FuncSpec, key string, sig *types.Signature, arg
 			env.vars[names[i]] = a
 		}
 	}
+	bindFree := func(cur *State) {
+		if rec == nil {
+			return
+		}
+		for i, fv := range rec.fn.FreeVars {
+			if i < len(rec.bindings) {
+				if pt, ok := fv.Type().Underlying().(*types.Pointer); ok {
+					env.vars[fv.Name()] = SV{t: fc.load(cur, rec.bindings[i].t, pt.Elem()), typ: pt.Elem()}
+				}
+			}
+		}
+	}
+	bindFree(st)
 	for i, cl := range spec.Requires {
 		t, err := env.evalBool(cl.E)
 		if err != nil {
@@ -245,7 +286,11 @@ func (fr *Frame) applySpec(spec *FuncSpec, key string, sig *types.Signature, arg
 		if label == "" {
 			label = fmt.Sprint(i)
 		}
-		fc.oblige(fr, "pre", key+":"+label, g, t, pos, cl.Text, fr.props())
+		if fr.trustsPre(key) {
+			fc.assumes["precondition of "+key+" assumed at its call sites in "+funcKey(fr.fn)+" (trustpre): "+cl.Text] = true
+		} else {
+			fc.oblige(fr, "pre", key+":"+label, g, t, pos, cl.Text, fr.props())
+		}
 		fc.assume(g, t)
 	}
 	for i, cl := range spec.PanicsWhen {
@@ -254,7 +299,11 @@ func (fr *Frame) applySpec(spec *FuncSpec, key string, sig *types.Signature, arg
 			fc.eng.stale(spec, cl, err)
 			continue
 		}
-		fc.oblige(fr, "pre", fmt.Sprintf("%s:nopanic%d", key, i), g, not(t), pos, "callee panics when "+cl.Text, fr.props())
+		if fr.trustsPre(key) {
+			fc.assumes["no-panic condition of "+key+" assumed at its call sites in "+funcKey(fr.fn)+" (trustpre): !("+cl.Text+")"] = true
+		} else {
+			fc.oblige(fr, "pre", fmt.Sprintf("%s:nopanic%d", key, i), g, not(t), pos, "callee panics when "+cl.Text, fr.props())
+		}
 		fc.assume(g, not(t))
 	}
 	old := st.clone()
@@ -292,6 +341,7 @@ func (fr *Frame) applySpec(spec *FuncSpec, key string, sig *types.Signature, arg
 			fc.havocComps(st, nil, true)
 		case m.Ghost != "":
 			k := "G|" + m.Ghost
+			fc.registerComp(k, ghostSort(m.Ghost))
 			if s, ok := fc.comps[k]; ok {
 				fc.noteWrite(k)
 				st.heap[k] = fc.fresh("H_"+mangle(k), s)
@@ -303,12 +353,44 @@ func (fr *Frame) applySpec(spec *FuncSpec, key string, sig *types.Signature, arg
 				fc.eng.stale(spec, Clause{Text: m.Text, Src: spec.Src}, fmt.Errorf("cannot evaluate modifies target"))
 				continue
 			}
-			sl, ok := types.Unalias(v.typ).Underlying().(*types.Slice)
-			if !ok {
-				fc.eng.stale(spec, Clause{Text: m.Text, Src: spec.Src}, fmt.Errorf("modifies x[..] needs a slice"))
+			if mt, isMap := types.Unalias(v.typ).Underlying().(*types.Map); isMap {
+				// modifies m[..] on a map (C05): the entries and the length of this one map become unknown, every other map is unchanged
+				mh, mv := fc.mapComps(mt)
+				hh, vv := fc.comp(st, mh, fc.comps[mh]), fc.comp(st, mv, fc.comps[mv])
+				ml := fc.comp(st, "ML", "(Array Ptr Int)")
+				hs, vs := fc.comps[mh], fc.comps[mv]
+				nh := fc.fresh("mhav", hs[len("(Array Ptr "):len(hs)-1])
+				nv := fc.fresh("mvav", vs[len("(Array Ptr "):len(vs)-1])
+				nl := fc.fresh("mlav", "Int")
+				fc.assume("true", app(">=", nl, "0"))
+				fc.setComp(st, mh, hs, app("store", hh, v.t, nh))
+				fc.setComp(st, mv, vs, app("store", vv, v.t, nv))
+				fc.setComp(st, "ML", "(Array Ptr Int)", app("store", ml, v.t, nl))
 				continue
 			}
-			if m.Cap {
+			sl, ok := types.Unalias(v.typ).Underlying().(*types.Slice)
+			if !ok {
+				fc.eng.stale(spec, Clause{Text: m.Text, Src: spec.Src}, fmt.Errorf("modifies x[..] needs a slice or a map"))
+				continue
+			}
+			if m.Whole {
+				if !isLeaf(sl.Elem()) {
+					fc.eng.stale(spec, Clause{Text: m.Text, Src: spec.Src}, fmt.Errorf("modifies x[*] needs a slice of leaf elements"))
+					continue
+				}
+				// the whole backing array of the slice becomes unknown (well-typed) content
+				k, srt := fc.bKey(sl.Elem())
+				nb := fc.fresh("blk", "(Array Int "+fc.tc.sortOf(sl.Elem())+")")
+				if lo, hi, ok := rangeOf(sl.Elem()); ok {
+					fc.emit(fmt.Sprintf("(assert (forall ((j Int)) (! (and (<= %s (select %s j)) (< (select %s j) %s)) :pattern ((select %s j)))))", bignum(lo), nb, nb, bignum(hi), nb))
+				}
+				fc.setComp(st, k, srt, ite(eq(sarr(v.t), nilPtr), fc.comp(st, k, srt), app("store", fc.comp(st, k, srt), sarr(v.t), nb)))
+				continue
+			}
+			if m.Tail {
+				w := SV{t: mkSlice(sarr(v.t), app("+", soff(v.t), slen(v.t)), app("-", scap(v.t), slen(v.t)), app("-", scap(v.t), slen(v.t))), typ: v.typ}
+				fr.havocSliceContents(st, old, w, sl.Elem(), g)
+			} else if m.Cap {
 				// widen the window to the capacity
 				w := SV{t: mkSlice(sarr(v.t), soff(v.t), scap(v.t), scap(v.t)), typ: v.typ}
 				fr.havocSliceContents(st, old, w, sl.Elem(), g)
@@ -322,11 +404,31 @@ func (fr *Frame) applySpec(spec *FuncSpec, key string, sig *types.Signature, arg
 				fc.eng.stale(spec, Clause{Text: m.Text, Src: spec.Src}, fmt.Errorf("modifies target is not an lvalue"))
 				continue
 			}
-			fc.havocAt(st, g, a, t)
+			// `modifies x.f` with x == nil names no location (the callee cannot reach it): nothing changes then.
+			base := a
+			for strings.HasPrefix(base, "(Fld ") || strings.HasPrefix(base, "(Elem ") {
+				base = splitTop(base)[1]
+			}
+			if base == a {
+				fc.havocAt(st, g, a, t)
+			} else {
+				before := st.clone()
+				fc.havocAt(st, g, a, t)
+				isNil := eq(base, nilPtr)
+				for k, v := range st.heap {
+					if ov, had := before.heap[k]; !had || ov != v {
+						if !had {
+							ov = compInit(k)
+						}
+						st.heap[k] = fc.define("H_"+mangle(k), fc.comps[k], ite(isNil, ov, v))
+					}
+				}
+			}
 		}
 	}
 	env.cur = st
 	env.old = old
+	bindFree(st)
 	if !spec.Pure {
 		// the callee may allocate: its results may point to objects newer than the caller's watermark
 		fc.bumpWatermark(st)
@@ -340,6 +442,14 @@ func (fr *Frame) applySpec(spec *FuncSpec, key string, sig *types.Signature, arg
 				if _, isPtr := types.Unalias(t).Underlying().(*types.Pointer); isPtr {
 					p := fc.alloc(st)
 					res = append(res, SV{t: fc.define(fr.prefix+"fr", "Ptr", p), typ: t})
+					continue
+				}
+				if _, isSl := types.Unalias(t).Underlying().(*types.Slice); isSl {
+					// `fresh` on a slice result: nil, or a window at offset 0 of a newly allocated block
+					p := fc.define(fr.prefix+"frs", "Ptr", fc.alloc(st))
+					v := fc.fresh(fmt.Sprintf("%sc_r%d", fr.prefix, i), "Slice")
+					fc.assume(g, and(or(eq(sarr(v), p), eq(sarr(v), nilPtr)), eq(soff(v), "0")))
+					res = append(res, SV{t: v, typ: t})
 					continue
 				}
 			}
@@ -366,6 +476,15 @@ func (fr *Frame) applySpec(spec *FuncSpec, key string, sig *types.Signature, arg
 			fc.eng.stale(spec, cl, err)
 			continue
 		}
+		fc.assume(g, t)
+	}
+	for _, cl := range spec.AssumedEns {
+		t, err := env.evalBool(cl.E)
+		if err != nil {
+			fc.eng.stale(spec, cl, err)
+			continue
+		}
+		fc.assumes["assumed postcondition of "+key+": "+cl.Text+" ("+cl.Src+")"] = true
 		fc.assume(g, t)
 	}
 	if spec.Pure && len(res) == 1 {
@@ -441,7 +560,8 @@ func (fr *Frame) havocSliceContents(st, old *State, s SV, et types.Type, g strin
 	if lo, hi, ok := rangeOf(et); ok {
 		fc.emit(fmt.Sprintf("(assert (forall ((j Int)) (! (and (<= %s (select %s j)) (< (select %s j) %s)) :pattern ((select %s j)))))", bignum(lo), nb, nb, bignum(hi), nb))
 	}
-	fc.setComp(st, k, srt, app("store", fc.comp(st, k, srt), sarr(s.t), nb))
+	// a nil slice has no backing array: nothing changes
+	fc.setComp(st, k, srt, ite(eq(sarr(s.t), nilPtr), fc.comp(st, k, srt), app("store", fc.comp(st, k, srt), sarr(s.t), nb)))
 }
 
 func (fr *Frame) builtin(in ssa.Instruction, b *ssa.Builtin, c *ssa.CallCommon, st *State, g string) []SV {
@@ -591,6 +711,15 @@ func (fr *Frame) appendBuiltin(c *ssa.CallCommon, args []SV, st *State, g string
 	fc.emit(fmt.Sprintf("(assert (=> %s (forall ((i Int)) (! (=> (or (< i %s) (>= i (+ %s %s))) (= (select %s i) (select %s i))) :pattern ((select %s i))))))",
 		inPlace, soff(s.t), soff(s.t), newLen, nb, oldBlk, nb))
 	fc.setComp(st, k, srt, app("store", heap, sarr(res), nb))
+	if isByteT(et) && len(args) > 1 && tc.sortOf(more.typ) == "Slice" {
+		// the result holds the concatenation of the two byte strings (see builtins seq, cat)
+		fc.eng.declareUF(fc, "bseq", []string{"(Array Int Int)", "Int", "Int"}, "Int")
+		fc.eng.declareUF(fc, "bcat", []string{"Int", "Int"}, "Int")
+		fc.assume("true", eq(app("bseq", nb, ro, newLen), app("bcat", app("bseq", oldBlk, soff(s.t), slen(s.t)), app("bseq", app("select", heap, sarr(more.t)), soff(more.t), addLen))))
+		// ... whose prefix is the old byte string and whose suffix is the appended one
+		fc.assume("true", eq(app("bseq", nb, ro, slen(s.t)), app("bseq", oldBlk, soff(s.t), slen(s.t))))
+		fc.assume("true", eq(app("bseq", nb, plus(ro, slen(s.t)), addLen), app("bseq", app("select", heap, sarr(more.t)), soff(more.t), addLen)))
+	}
 	return SV{t: res, typ: c.Args[0].Type()}
 }
 
@@ -625,8 +754,28 @@ func (fr *Frame) copyBuiltin(c *ssa.CallCommon, args []SV, st *State, g string) 
 		n, nb, idx(soff(dst.t), "j"), srcAt, nb, idx(soff(dst.t), "j")))
 	fc.emit(fmt.Sprintf("(assert (forall ((i Int)) (! (=> (or (< i %s) (>= i (+ %s %s))) (= (select %s i) (select %s i))) :pattern ((select %s i)))))",
 		soff(dst.t), soff(dst.t), n, nb, oldBlk, nb))
+	if tc.sortOf(src.typ) == "Slice" {
+		// the same fact in absolute-index form, so that any read of the new block triggers it
+		fc.emit(fmt.Sprintf("(assert (forall ((i Int)) (! (=> (and (<= %s i) (< i (+ %s %s))) (= (select %s i) (select (select %s %s) (+ %s (- i %s))))) :pattern ((select %s i)))))",
+			soff(dst.t), soff(dst.t), n, nb, heap, sarr(src.t), soff(src.t), soff(dst.t), nb))
+	}
 	fc.setComp(st, k, srt, app("store", heap, sarr(dst.t), nb))
+	if isByteT(et) && tc.sortOf(src.typ) == "Slice" {
+		// the copied window holds the same byte string as the source window (see builtin seq)
+		fc.eng.declareUF(fc, "bseq", []string{"(Array Int Int)", "Int", "Int"}, "Int")
+		fc.assume("true", eq(app("bseq", nb, soff(dst.t), n), app("bseq", app("select", heap, sarr(src.t)), soff(src.t), n)))
+	}
+	if _, used := fc.ufs["kvval"]; used && fc.tc.sortOf(et) == "Int" && tc.sortOf(src.typ) != "Str" {
+		// T-KV: value ids are functions of the content, and copy makes dst[:n] and src[:n] equal byte strings
+		// (ground instance of extensionality at the copy site; only in functions whose specs mention kvval)
+		fc.assume(g, eq(app("kvval", nb, soff(dst.t), n), app("kvval", app("select", heap, sarr(src.t)), soff(src.t), n)))
+	}
 	return SV{t: n, typ: types.Typ[types.Int]}
+}
+
+func isByteT(t types.Type) bool {
+	b, ok := types.Unalias(t).Underlying().(*types.Basic)
+	return ok && b.Kind() == types.Uint8
 }
 
 var _ = strings.Contains
@@ -700,4 +849,94 @@ func (fr *Frame) sortSliceModel(c *ssa.CallCommon, st *State, g string, pos toke
 		fc.emit(fmt.Sprintf("(assert (forall ((i Int) (j Int)) (=> (and (<= 0 i) (< i j) (< j %s)) (not (%s j i)))))", n, lf))
 	}
 	return true
+}
+
+const badgerPkgPath = "(*github.com/dgraph-io/badger/v4"
+
+// badgerRunModel: assumed semantics of (*badger.DB).Update(fn) and (*badger.DB).View(fn) (T-KV, sequential reading):
+// fn is called once with a new transaction whose view is the current state of the DB; Update commits that view iff fn
+// returned nil (the commit itself may fail, then nothing is written); View never changes the DB and returns fn's error.
+// The effect of fn is taken from the CLOSURE'S OWN CONTRACT (which is verified separately against its body); the abstract
+// state functions kvget/dbget are the ones declared in trusted/badger.spec. Returns ok == false (caller falls back to the
+// assumed contract of Update/View in badger.spec) when the closure is not syntactically known or has no contract.
+func (fr *Frame) badgerRunModel(key string, c *ssa.CallCommon, st *State, g string, pos token.Pos) ([]SV, bool) {
+	fc := fr.fc
+	if len(c.Args) != 2 {
+		return nil, false
+	}
+	db, fnv := fr.val(c.Args[0]), fr.val(c.Args[1])
+	rec := fc.eng.closures[fnv.t]
+	if rec == nil {
+		return nil, false
+	}
+	cspec := fc.eng.specFor(rec.fn)
+	if cspec == nil || rec.fn.Signature.Params().Len() != 1 {
+		fc.warn("badger Update/View at %s: closure %s has no contract, falling back to the assumed contract", fc.eng.pos(pos), funcKey(rec.fn))
+		return nil, false
+	}
+	bpkg := fc.eng.pkgOfSpec(&FuncSpec{Pkg: "github.com/dgraph-io/badger/v4"})
+	txnPtrT := rec.fn.Signature.Params().At(0).Type()
+	tp, ok1 := types.Unalias(txnPtrT).Underlying().(*types.Pointer)
+	dp, ok2 := types.Unalias(c.Args[0].Type()).Underlying().(*types.Pointer)
+	if bpkg == nil || !ok1 || !ok2 {
+		return nil, false
+	}
+	update := strings.HasSuffix(key, ".Update")
+	fc.assumes["assumed contract: badger DB.Update/View run the closure on a transaction over the current DB state; Update commits iff it returns nil (T-KV, built-in model)"] = true
+	fc.calleesUsed[funcKey(rec.fn)] = true
+	fr.safe("nil", g, not(eq(db.t, nilPtr)), pos, "Update/View on nil *badger.DB")
+	mustEval := func(env *SpecEnv, src string) string {
+		x, err := parseExpr(src)
+		if err != nil {
+			panic(specErr{"badger model: " + err.Error()})
+		}
+		t, err := env.evalBool(x)
+		if err != nil {
+			panic(specErr{"badger model (is trusted/badger.spec loaded?): " + err.Error()})
+		}
+		return t
+	}
+	// the new transaction
+	p := fc.define(fr.prefix+"kvtxn", "Ptr", fc.alloc(st))
+	fc.havocAt(st, g, p, tp.Elem())
+	txn := SV{t: p, typ: txnPtrT}
+	env := &SpecEnv{fc: fc, vars: map[string]SV{"db": db, "txn": txn}, cur: st, old: st, pkg: bpkg}
+	fc.assume(g, mustEval(env, "forall k mathint :: {kvget(*txn, k)} {dbget(*db, k)} kvget(*txn, k) == dbget(*db, k)"))
+	pre := st.clone()
+	res := fr.applySpecClosure(cspec, funcKey(rec.fn), rec.fn.Signature, []SV{txn}, st, g, pos, rec)
+	if len(res) != 1 {
+		return nil, false
+	}
+	errT := types.Universe.Lookup("error").Type()
+	r := SV{t: fc.fresh(fr.prefix+"kvrun", "Iface"), typ: errT}
+	if update {
+		fc.havocAt(st, g, db.t, dp.Elem())
+	}
+	fc.bumpWatermark(st)
+	fr.assumeWF([]SV{r}, st, g)
+	env = &SpecEnv{fc: fc, vars: map[string]SV{"db": db, "txn": txn, "e": res[0], "result": r}, cur: st, old: pre, pkg: bpkg}
+	if update {
+		fc.assume(g, mustEval(env, "e != nil ==> result == e && *db == old(*db)"))
+		fc.assume(g, mustEval(env, "e == nil ==> (result == nil && forall k mathint :: {dbget(*db, k)} {kvget(*txn, k)} dbget(*db, k) == kvget(*txn, k)) || (result != nil && *db == old(*db))"))
+	} else {
+		fc.assume(g, mustEval(env, "result == e"))
+	}
+	return []SV{r}, true
+}
+
+// trustsPre: the root function's contract declares the preconditions of this callee as assumed (trustpre clause).
+func (fr *Frame) trustsPre(key string) bool {
+	root := fr
+	for root.callerFrame != nil {
+		root = root.callerFrame
+	}
+	if root.spec == nil {
+		return false
+	}
+	for _, n := range root.spec.TrustPre {
+		if key == n || strings.HasSuffix(key, "."+n) || strings.HasSuffix(key, ")."+n) {
+			return true
+		}
+	}
+	return false
 }
